@@ -13,6 +13,7 @@ import (
 	"net/http/httptest"
 	"testing"
 
+	"github.com/gotid/god/lib/load"
 	"github.com/gotid/god/lib/logx"
 	"github.com/gotid/god/lib/stat"
 	"time"
@@ -32,6 +33,12 @@ func c02RouteOptions(os []c02Opt) []RouteOption {
 			out = append(out, WithTimeout(time.Duration(o.N)*c02Tick))
 		case "priority":
 			out = append(out, WithPriority())
+		case "jwt":
+			out = append(out, WithJwt(c02JwtSecret))
+		case "jwtt":
+			out = append(out, WithJwtTransition(c02JwtSecret, c02JwtPrevSecret))
+		case "sig0":
+			out = append(out, WithSignature(SignatureConfig{})) // no private keys, not strict: verification is switched off
 		}
 	}
 	return out
@@ -59,9 +66,22 @@ func c02BuildEngine(c c02Case, h http.HandlerFunc) (func(int, http.ResponseWrite
 		cf := c.cfg(sv)
 		cfg := Config{Timeout: int64(cf.T), MaxConns: cf.MC, MaxBytes: int64(cf.MB), Verbose: c.V}
 		cfg.Name = fmt.Sprintf("c02-%d", sv) // CpuThreshold 0: no shedder in the chain (it reads the real CPU load of the machine)
+		if c.NN {
+			cfg.Name = ""
+		}
+		if c.CP {
+			// shedders are switched off in this process (init: load.Disable, which is what Mode dev does), so the
+			// shedding handler is in the chain with a shedder that never drops
+			cfg.CpuThreshold, cfg.Mode = 900, "dev"
+		}
 		srv, err := NewServer(cfg)
 		if err != nil {
 			return nil, err
+		}
+		if c.MW > 0 {
+			srv.Use(func(next http.HandlerFunc) http.HandlerFunc {
+				return func(w http.ResponseWriter, r *http.Request) { next(w, r) }
+			})
 		}
 		for i, r := range c.R {
 			shared := r.Sh || (i+1 < len(c.R) && c.R[i+1].Sh)
@@ -70,6 +90,9 @@ func c02BuildEngine(c c02Case, h http.HandlerFunc) (func(int, http.ResponseWrite
 			} else {
 				srv.AddRoutes(routeSlices[i], optSlices[i]...)
 			}
+		}
+		if c.MW > 1 {
+			srv.Use(ToMiddleware(func(next http.Handler) http.Handler { return next }))
 		}
 		srvs = append(srvs, srv)
 	}
@@ -84,9 +107,11 @@ func c02BuildEngine(c c02Case, h http.HandlerFunc) (func(int, http.ResponseWrite
 func init() {
 	logx.Disable()
 	stat.DisableLog()
+	load.Disable() // as Config.Mode dev/test/rt/pre does: every shedder of this process is a no-op (the real one reads the machine's CPU load)
+	c02FullChain = true
 	// warm up process-wide singletons (prometheus vectors, otel globals, log
 	// writer) outside any bubble: one request through a complete chain.
-	serve, err := c02BuildEngine(c02Case{T: 1000, MC: 1, MB: 8, R: []c02Route{{M: "POST", O: []c02Opt{{K: "prefix", S: "/v1"}}}}},
+	serve, err := c02BuildEngine(c02Case{T: 1000, MC: 1, MB: 8, CP: true, MW: 2, R: []c02Route{{M: "POST", O: []c02Opt{{K: "prefix", S: "/v1"}}}}},
 		func(w http.ResponseWriter, r *http.Request) { w.Write([]byte("warm")) })
 	if err != nil {
 		panic(err)
